@@ -9,7 +9,13 @@
     * `native_order`       the output is a subsequence of the source's items (order, no duplication),
       `native_nodup`       and has no duplicate if the source's items are distinct;
     * `native_independent` what passes of a key depends on that key's items and ticks only;
-    * `native_complete`, `native_error`  the source's completion / error is propagated after the items;
+    * `native_complete`, `native_error`  the source's completion / error is propagated after the items
+                           (`native` = every schedule in which no ticker fires inside the completion of the source);
+    * KNOWN FINDING (pinned tree): under a schedule where the ticker of an existing group fires between
+      WindowWhen closing its last window and completing its destination, the completion is LOST
+      (`late_tick_witness`, `native_sched_late`); `native_sched_partial` is the property outside that class,
+      `native_sched_error`: errors are propagated under every schedule. Full statement, false on the pinned tree:
+        ∀ n tl late, nativeSched n tl .complete late = (run n tl).map item ++ [.complete]
     * `native_quota_span`  arithmetic corollary: whatever the alignment of the window grid, in every span
                            of length `L` at most n·(⌊L/w⌋+2) items of one key pass
                            (`span_meets_windows`: the span meets at most ⌊L/w⌋+2 windows).
@@ -27,6 +33,7 @@ import RoProofs.RateLimit
 import RoProofs.RateLimitTime
 import RoProofs.RateLimitUlule
 import RoProofs.RateLimitAccept
+import RoGen.RateLimit
 namespace Ro.C20
 open Ro Ro.RateLimit
 
@@ -61,6 +68,24 @@ theorem native_complete (n : Nat) (tl : List (Ev κ α)) :
 theorem native_error (n : Nat) (tl : List (Ev κ α)) (x : Err) :
     native n tl (.error x) = (run n tl).map (fun p => Out.item p.1 p.2) ++ [.error x] := RateLimit.native_error n tl x
 
+theorem native_sched_partial (n : Nat) (tl : List (Ev κ α)) (e : End) (late : List κ)
+    (h : late.any (fun k => hasGroup k tl) = false) : nativeSched n tl e late = native n tl e :=
+  nativeSched_partial n tl e late h
+
+theorem native_sched_error (n : Nat) (tl : List (Ev κ α)) (x : Err) (late : List κ) :
+    nativeSched n tl (.error x) late = (run n tl).map (fun p => Out.item p.1 p.2) ++ [.error x] :=
+  nativeSched_error n tl x late
+
+theorem native_sched_late (n : Nat) (tl : List (Ev κ α)) (late : List κ)
+    (h : late.any (fun k => hasGroup k tl) = true) :
+    nativeSched n tl .complete late = (run n tl).map (fun p => Out.item p.1 p.2) := nativeSched_late n tl late h
+
+/-- the witness replayed on the real code (known_findings.jsonl): quota 2, one item of key 0, the
+    source completes and key 0's ticker fires inside the completion: the item passes, no Complete -/
+theorem late_tick_witness :
+    nativeSched 2 [Ev.item 0 1] .complete [0] = [Out.item 0 (1 : Nat)]
+    ∧ native 2 [Ev.item 0 1] .complete = [Out.item 0 (1 : Nat), .complete] := by decide
+
 theorem span_meets_windows (w o a L : Nat) (hw : 0 < w) : widx w o (a + L) + 1 ≤ widx w o a + (L / w + 2) :=
   span_windows w o a L hw
 
@@ -89,6 +114,23 @@ theorem ulule_by_answers (store : Store κ) (sync : Bool) (inp : List (κ × α)
 
 theorem acceptor_sound [DecidableEq α] (c : Cfg) (inp : List (InItem κ α)) (e : End) (obs : List (ObsItem κ α)) (term : End)
     (h : accepts c inp e obs term = true) : Clauses c inp e obs term := accepts_sound c inp e obs term h
+
+/-- (F) the body of `NewRateLimiter` in the tree under check IS the composition the model is written
+    after: `Pipe2(source, GroupBy(keyGetter), MergeMap(PipeOp3(WindowWhen[T](Interval(interval)),
+    Map(Take[T](count)), MergeAll[T]())))` over the core package — `group`, `windowWhen` with the
+    key's own ticker, `takeEach count`, `mergeAll`, merged in place. Regenerated on every run. -/
+theorem native_composition :
+    RoGen.RateLimit.nativeShape = "return-func-return-expr"
+    ∧ RoGen.RateLimit.nativeImports = ["time", "github.com/samber/ro"]
+    ∧ RoGen.RateLimit.nativeParams = ["count int64", "interval time.Duration", "keyGetter func(T) string"]
+    ∧ RoGen.RateLimit.nativeInnerParams = ["source ro.Observable[T]"]
+    ∧ RoGen.RateLimit.nativeBody =
+        [(0, "ro.Pipe2"), (1, "source"),
+         (1, "ro.GroupBy"), (2, "keyGetter"),
+         (1, "ro.MergeMap"), (2, "ro.PipeOp3"),
+         (3, "ro.WindowWhen[T]"), (4, "ro.Interval"), (5, "interval"),
+         (3, "ro.Map"), (4, "ro.Take[T]"), (5, "count"),
+         (3, "ro.MergeAll[T]")] := by decide
 
 /-! non-vacuity: two keys, quota 1; key 0's second item is cut, its third passes after key 0's tick;
     key 1 is untouched by key 0's traffic -/
@@ -125,6 +167,11 @@ end Ro.C20
 #print axioms Ro.C20.native_independent
 #print axioms Ro.C20.native_complete
 #print axioms Ro.C20.native_error
+#print axioms Ro.C20.native_sched_partial
+#print axioms Ro.C20.native_sched_error
+#print axioms Ro.C20.native_sched_late
+#print axioms Ro.C20.late_tick_witness
+#print axioms Ro.C20.native_composition
 #print axioms Ro.C20.span_meets_windows
 #print axioms Ro.C20.native_quota_span
 #print axioms Ro.C20.ulule_filter
